@@ -12,8 +12,8 @@
 //!
 //! Voucher construction: channel_addr = f0<channel_key> when channel_is_id, otherwise an f2 address that
 //! the resolve table maps to channel_key (unless channel_resolves=false); signature = BLS [1,2,3];
-//! secret = b"sec" and secret_pre_image = blake2b(b"sec") when has_secret (the submitted secret is b"bad"
-//! when secret_ok=false), both empty otherwise; extra = ModVerifyParams{f0<extra_actor>, extra_method, empty} when has_extra.
+//! secret = b"sec" (empty when secret_empty) and secret_pre_image = blake2b(secret) when has_secret (blake2b of
+//! another secret when secret_ok=false), both empty otherwise; extra = ModVerifyParams{f0<extra_actor>, extra_method, empty} when has_extra.
 //! For UpdateChannelState the first scripted send answers the AuthenticateMessage call to the signer.
 
 use anyhow::{anyhow, bail, Context, Result};
@@ -152,14 +152,12 @@ fn voucher_params(rt: &ReplayRuntime, v: &Value) -> Result<UpdateChannelStatePar
     }
     let has_secret = opt_bool(v, "has_secret", false)?;
     let (secret, pre_image) = if has_secret {
-        let good = b"sec".to_vec();
-        let pre = rt.hash_blake2b(&good).to_vec();
-        let submitted = if opt_bool(v, "secret_empty", false)? {
-            vec![]
-        } else if opt_bool(v, "secret_ok", true)? {
-            good
+        let submitted = if opt_bool(v, "secret_empty", false)? { vec![] } else { b"sec".to_vec() };
+        // the voucher's hash lock matches the submitted secret iff secret_ok
+        let pre = if opt_bool(v, "secret_ok", true)? {
+            rt.hash_blake2b(&submitted).to_vec()
         } else {
-            b"bad".to_vec()
+            rt.hash_blake2b(b"some other secret").to_vec()
         };
         (submitted, pre)
     } else {
